@@ -21,6 +21,20 @@ table whose row j is (j, j)): the model says the stored pairs are, bit for bit a
 twin[i] of the samples widened to float64 (tie, flag 0); the property says every stored pair is ONE
 row of the supplied samples, compared as values with NaN = NaN so that rows holding NaN count
 (flag 3).  A refusal of a container / dtype / non-finite table is counted, never a failure.
+
+Several generators alive at once (multi_specs / multi_case, checker c16_multi_gen): 2-4 generator objects
+with different attribute sets (none / weights / redshifts / both - every ordered pair of different sets in
+a fixed grid), own tables with disjoint rows, own or shared windows and seeds, all constructed before any
+is used or constructed while the others are in use; their operations (direct calls, generate_dataframe,
+probes, complete passes, readers that stay open and are advanced chunk by chunk, Catalog.from_random with
+centres / with patch_num, reseeds, new seeds) are interleaved at random and every object is used once more
+when all exist.  The model (Randoms.v World, C16_generators_independent): generators are independent
+values - what object i produces is what it produces alone on its own operations.  Every object is laid
+next to the same object (same constructor arguments, same own operations) that is the only generator of a
+fresh run: own event log = trace of its own operations (tie, flag 0), records per group = requested,
+window and rows of ITS OWN samples, bit-identical to the object alone, and the records / the catalog header
+carry weights / redshifts iff this object was given them.  An operation that raises in company but not
+alone is a failure (c16-raises:*:other-generators-alive).
 """
 import math
 import os
@@ -43,6 +57,9 @@ TRUSTED = [
     "point, proved over the reals only",
     "treecorr k-means (patch_num mode) is an oracle: any centres are accepted, record sets are compared as multisets",
     "the logging subclass of BoxRandoms used by the harness (overrides reseed and __call__ only to record them)",
+    "several generators: the reference of an object is the same class with the same arguments driven through its own "
+    "operations while no other generator is constructed or used (one process: state that outlives every object of an "
+    "earlier case is not reset between cases)",
     "the index twin of the attribute-table cases: the real generator with the same seed, window, call sizes and data "
     "size m over the finite float64 table row j = (j, j) is taken to show the index vector of each call "
     "(numpy Generator.integers depends on the seed, the earlier draws, the bound m and the size only)",
@@ -66,11 +83,17 @@ ASSUMPTIONS = [
     "TypeError / ValueError for a float16 or bool table and a ValueError for a table holding NaN / inf are refusals: "
     "counted (refused:*), not failures (the pinned code passes non-finite entries through unchanged, widens every dtype "
     "exactly to float64 and raises TypeError at the first call for lists and tuples)",
+    "several generators: all requests are valid on their own (k, n >= 1, probe <= n, one centre at the middle of the "
+    "window, patch_num = 1); an exception raised both in company and alone is reported as c16-raises as in the single "
+    "cases; with patch_num the union of the patches is compared, otherwise every patch bit for bit; a column that the "
+    "catalog header claims and the records lack (or the reverse) counts as a column in the wrong state",
     "in the row comparison of the property NaN is one value (sign and payload ignored) and -0.0 = 0.0; bit patterns "
     "are compared only in the tie with the model (flag 0, ctx.disagree); which rows are drawn, and that rows holding "
     "non-finite entries are drawn at all, is part of the tie, not of the property",
 ]
-RULE = ("cases = (window, n, cs, seed, attribute mode and table size, patch mode, history of earlier generator use); "
+RULE = ("several generators = (attribute set, table, window, seed of every object; the schedule of constructions and "
+        "operations); non-trivial when the objects do not all have the same attribute set; "
+        "cases = (window, n, cs, seed, attribute mode and table size, patch mode, history of earlier generator use); "
         "distinct by that tuple; non-trivial when the history is non-empty (the generator was used before the observed "
         "pass) and n > 1; attribute-table cases = (table content, dtypes, container, layout, mode, window, seed, call "
         "sizes, n, cs, centres); non-trivial when the table is not a plain finite float64 ndarray with distinct rows")
@@ -771,6 +794,381 @@ def run_attr_cases(ctx, Plain):
             ctx.disagree("Attr_C16", ("attr", idx), dict(code=c, phase=phase, replay=replay))
 
 
+# ---------------------------------------------------------------------------------------------
+# several generator objects alive at once: 2-4 generators with different attribute sets, tables,
+# windows and seeds, constructed before (or while) the others are used; their use is interleaved
+# down to single chunks of open readers.  Model (Randoms.v, World): generators are independent
+# values - C16_generators_independent.  Every object is laid next to the SAME object (same
+# constructor arguments, same own operations) used alone.
+# ---------------------------------------------------------------------------------------------
+MULTI_MODES = ("none", "w", "z", "both")
+
+
+def multi_tables(g):
+    """the samples of one object; the rows of different objects are disjoint (base), so a row that
+    comes from another object's table is no row of this one"""
+    mode, m, base = g["attrs"], g["m"], g["base"]
+    w = np.arange(base + 1, base + m + 1, dtype="f8") if mode in ("w", "both") else None
+    z = (np.arange(base + 1, base + m + 1, dtype="f8") / 1024.0) if mode in ("z", "both") else None
+    return w, z
+
+
+def multi_new(cls, g):
+    w, z = multi_tables(g)
+    kw = {}
+    if w is not None:
+        kw["weights"] = w
+    if z is not None:
+        kw["redshifts"] = z
+    gen = cls(*g["window"], seed=g["seed"], **kw)
+    gen.vlog.clear()      # the constructor's reseed(seed) is not an operation of the schedule
+    return gen
+
+
+def multi_ops(rng):
+    """the operations of ONE object, in its own order (without the object number)"""
+    ops = []
+    for _ in range(rng.choice([1, 2, 2, 3, 4])):
+        kind = rng.choice(["call", "call", "df", "probe", "full", "reader", "reader", "catalog", "catalog",
+                           "catalog_pn", "reseed", "setseed"])
+        if kind in ("call", "df"):
+            ops.append([kind, rng.choice([1, 2, 3, 7, 16])])
+        elif kind == "probe":
+            k = rng.choice([1, 2, 5])
+            ops.append(["probe", k, k + rng.choice([0, 1, 9]), rng.choice([1, 2, 4])])
+        elif kind == "full":
+            cs = rng.choice([1, 2, 3, 5])
+            ops.append(["full", rng.choice([1, cs, cs + 1, 2 * cs + 1]), cs])
+        elif kind == "reader":   # a reader that stays open while the other objects are used: one item per chunk
+            cs = rng.choice([1, 2, 3, 5])
+            n = rng.choice([cs, cs + 1, 2 * cs, 2 * cs + 1, 3 * cs + 1])
+            nchunks = -(-n // cs)
+            ops.append(["open", n, cs])
+            for j in range(rng.choice([nchunks, nchunks, rng.randrange(1, nchunks + 1)])):
+                ops.append(["next", j, n, cs])
+        elif kind == "catalog":
+            cs = rng.choice([2, 3, 5])
+            ops.append(["catalog", rng.choice([1, cs, cs + 1, 2 * cs + 1, 3 * cs - 1]), cs])
+        elif kind == "catalog_pn":
+            n = rng.choice([10, 11, 16, 21])
+            ops.append(["catalog_pn", n, rng.choice([3, 5, 8]), rng.randrange(10, n + 1)])
+        elif kind == "reseed":
+            ops.append(["reseed"])
+        else:
+            ops.append(["setseed", rng.randrange(0, 2 ** 31)])
+    return ops
+
+
+def multi_gen_spec(rng, gi, mode, window=None, seed=None):
+    if window is None:
+        window, wlabel = WINDOWS[rng.randrange(len(WINDOWS))]
+    else:
+        window, wlabel = window
+    if seed is None:
+        seed = rng.choice([0, 1, 12345, rng.randrange(2 ** 31), rng.randrange(2 ** 62)])
+    return dict(attrs=mode, m=(rng.choice([1, 2, 5, 17]) if mode != "none" else 0), base=32 * gi,
+                window=list(window), wlabel=wlabel, seed=seed)
+
+
+def multi_specs(ctx):
+    rng = random.Random(ctx.rng.getrandbits(64))
+    out = []
+    # ---- a fixed grid: every ordered pair of different attribute sets; both objects exist before either is used ----
+    for a in MULTI_MODES:
+        for b in MULTI_MODES:
+            if a == b:
+                continue
+            gens = [multi_gen_spec(rng, 0, a), multi_gen_spec(rng, 1, b)]
+            cs = rng.choice([2, 3, 5])
+            sched = [["new", 0], ["new", 1],
+                     [0, "call", rng.choice([2, 5, 16])], [1, "call", rng.choice([2, 5, 16])],
+                     [0, "catalog", rng.choice([cs + 1, 2 * cs + 1]), cs], [1, "catalog", rng.choice([cs, 3 * cs - 1]), cs],
+                     [1, "probe", 2, 5, 2], [0, "probe", 2, 5, 2]]
+            out.append(dict(gens=gens, sched=sched, created="early", solo_first=rng.random() < 0.5))
+    # ---- random worlds ----
+    total = ctx.n(40, 400)
+    while len(out) < total:
+        G = rng.choice([2, 2, 3, 3, 4])
+        modes = rng.sample(MULTI_MODES, G) if rng.random() < 0.8 else [rng.choice(MULTI_MODES) for _ in range(G)]
+        gens = []
+        for gi in range(G):
+            share_w = gi > 0 and rng.random() < 0.3
+            share_s = gi > 0 and rng.random() < 0.3
+            gens.append(multi_gen_spec(rng, gi, modes[gi],
+                                       window=(gens[0]["window"], gens[0]["wlabel"]) if share_w else None,
+                                       seed=gens[0]["seed"] if share_s else None))
+        created = rng.choice(["early", "early", "early", "staggered", "staggered"])
+        seqs = [[[gi] + op for op in multi_ops(rng)] for gi in range(G)]
+        sched = []
+        if created == "early":
+            order = list(range(G))
+            rng.shuffle(order)
+            sched += [["new", gi] for gi in order]
+        else:
+            seqs = [[["new", gi]] + sq for gi, sq in enumerate(seqs)]
+        ptr = [0] * G
+        while any(ptr[gi] < len(seqs[gi]) for gi in range(G)):
+            gi = rng.choice([g for g in range(G) if ptr[g] < len(seqs[g])])
+            sched.append(seqs[gi][ptr[gi]])
+            ptr[gi] += 1
+        # every object is used once more when all of them exist
+        order = list(range(G))
+        rng.shuffle(order)
+        for gi in order:
+            if rng.random() < 0.5:
+                sched.append([gi, "call", rng.choice([1, 2, 5])])
+            else:
+                cs = rng.choice([2, 3, 5])
+                sched.append([gi, "catalog", rng.choice([cs, cs + 1, 2 * cs + 1]), cs])
+        out.append(dict(gens=gens, sched=sched, created=created, solo_first=rng.random() < 0.5))
+    return out
+
+
+def multi_ops_term(item):
+    """the operations of the model (on one object) behind one item of a schedule"""
+    kind, a = item[1], item[2:]
+    if kind in ("call", "df"):
+        return "[Draw %s]" % fq.nat(a[0])
+    if kind == "reseed":
+        return "[Reseed]"
+    if kind == "setseed":
+        return "[SetSeed tt]"
+    if kind == "probe":
+        return "[Reseed; Probe %s]" % fq.nat(a[0])
+    if kind == "full":
+        return "[Reseed; Pass %s %s]" % (fq.nat(a[0]), fq.nat(a[1]))
+    if kind == "open":
+        return "[Reseed; Reseed]"
+    if kind == "next":
+        return "[Draw (nth %s (random_sizes %s %s) 0)]" % (fq.nat(a[0]), fq.nat(a[1]), fq.nat(a[2]))
+    if kind == "catalog":
+        return "(from_random_ops %s %s None)" % (fq.nat(a[0]), fq.nat(a[1]))
+    if kind == "catalog_pn":
+        return "(from_random_ops %s %s (Some %s))" % (fq.nat(a[0]), fq.nat(a[1]), fq.nat(a[2]))
+    raise ValueError(item)
+
+
+class MultiRunner:
+    """runs a schedule on real generator objects; per object the list of results of its items:
+    dict(item, arrays, header) or dict(item, raised, msg); an object that raised is left alone afterwards"""
+
+    def __init__(self, ctx, cls, gens, tag):
+        self.ctx, self.cls, self.gspecs, self.tag = ctx, cls, gens, tag
+        self.gens, self.readers, self.dead = {}, {}, set()
+        self.results = {gi: [] for gi in range(len(gens))}
+        self.ndirs = 0
+
+    def centre(self, gi):
+        w = self.gspecs[gi]["window"]
+        return impl.AngularCoordinates(np.deg2rad(np.asarray([[(w[0] + w[1]) / 2.0, (w[2] + w[3]) / 2.0]], dtype="f8")))
+
+    def catalog(self, gi, gen, n, cs, **kw):
+        self.ndirs += 1
+        d = impl.fresh_dir(self.ctx, "%s_%d" % (self.tag, self.ndirs))
+        try:
+            cat = impl.Catalog.from_random(d, gen, n, chunksize=cs, max_workers=1, **kw)
+            stored = impl.patch_records(cat)
+            header = (bool(cat.has_weights), bool(cat.has_redshifts), int(sum(cat.get_num_records())))
+        finally:
+            shutil.rmtree(d, ignore_errors=True)
+        return [stored[p] for p in sorted(stored)], header
+
+    def apply(self, gi, item):
+        from yaw.catalog.readers import RandomReader
+        gen, kind, a = self.gens[gi], item[1], item[2:]
+        if kind == "call":
+            return [gen(a[0])], None
+        if kind == "df":
+            df = gen.generate_dataframe(a[0], degrees=False)
+            arr = np.empty(len(df), dtype=[(str(c), "f8") for c in df.columns])
+            for c in df.columns:
+                arr[str(c)] = np.asarray(df[c], dtype="f8")
+            return [arr], None
+        if kind == "reseed":
+            gen.reseed()
+            return [], None
+        if kind == "setseed":
+            gen.reseed(a[0])
+            return [], None
+        if kind == "probe":
+            return [RandomReader(gen, a[1], a[2]).get_probe(a[0])], None
+        if kind == "full":
+            return [np.array(c) for c in RandomReader(gen, a[0], a[1])], None
+        if kind == "open":
+            self.readers[gi] = iter(RandomReader(gen, a[0], a[1]))
+            return [], None
+        if kind == "next":
+            return [np.array(next(self.readers[gi]))], None
+        if kind == "catalog":
+            return self.catalog(gi, gen, a[0], a[1], patch_centers=self.centre(gi))
+        if kind == "catalog_pn":
+            return self.catalog(gi, gen, a[0], a[1], patch_num=1, probe_size=a[2])
+        raise ValueError(item)
+
+    def run(self, sched):
+        for item in sched:
+            if item[0] == "new":
+                self.gens[item[1]] = multi_new(self.cls, self.gspecs[item[1]])
+                continue
+            gi = item[0]
+            if gi in self.dead:
+                continue
+            try:
+                with warnings.catch_warnings():
+                    warnings.simplefilter("ignore")
+                    arrays, header = self.apply(gi, item)
+            except Exception as e:
+                self.results[gi].append(dict(item=item, raised=type(e).__name__, msg=str(e)[:300],
+                                             traceback=traceback.format_exc()[-1200:]))
+                self.dead.add(gi)
+                continue
+            self.results[gi].append(dict(item=item, arrays=arrays, header=header))
+        return self
+
+
+def multi_same(item, a, b):
+    """the records of one item, bit for bit (patch_num: k-means centres are an oracle, the union of the patches)"""
+    if a["header"] != b["header"]:
+        return False
+    if item[1] == "catalog_pn":
+        return ([x.dtype for x in a["arrays"]][:1] == [x.dtype for x in b["arrays"]][:1]
+                and sorted(r for x in a["arrays"] for r in hexrows(x)) == sorted(r for x in b["arrays"] for r in hexrows(x)))
+    return (len(a["arrays"]) == len(b["arrays"])
+            and all(x.dtype == y.dtype and x.tobytes() == y.tobytes() for x, y in zip(a["arrays"], b["arrays"])))
+
+
+def multi_fields(res, col, want):
+    """does the group carry the column: the adverse observation counts (a catalog header that claims a column its
+    records lack, or the reverse, is a column in the wrong state)"""
+    seen = [col in (x.dtype.names or ()) for x in res["arrays"]]
+    if res["header"] is not None:
+        seen.append(res["header"][0 if col == "weights" else 1])
+    if not seen:
+        return want
+    return all(seen) if want else any(seen)
+
+
+def multi_case(ctx, spec, idx, Logged):
+    """-> list of (gi, term or None, replay, raises) for the objects of one world"""
+    gens, sched = spec["gens"], spec["sched"]
+    G = len(gens)
+
+    def solo_all():
+        res = {}
+        for gi in range(G):    # one object at a time: constructed, used on its own operations, dropped
+            r = MultiRunner(ctx, Logged, gens, "ms%d_%d" % (idx, gi)).run([["new", gi]] + [it for it in sched if it[0] == gi])
+            res[gi] = (r.results[gi], list(r.gens[gi].vlog))
+            del r
+        return res
+
+    solo = solo_all() if spec["solo_first"] else None
+    world = MultiRunner(ctx, Logged, gens, "mw%d" % idx).run(sched)
+    multi = {gi: (world.results[gi], list(world.gens[gi].vlog)) for gi in range(G)}
+    del world
+    if solo is None:
+        solo = solo_all()
+    out = []
+    for gi in range(G):
+        g = gens[gi]
+        hw, hz = g["attrs"] in ("w", "both"), g["attrs"] in ("z", "both")
+        lims = tuple(float(np.deg2rad(x)) for x in g["window"])
+        (mres, mlog), (sres, slog) = multi[gi], solo[gi]
+        raises, groups, shown = [], [], []
+        ras, decs, pairs = [], [], []
+        w, z = multi_tables(g)
+        for a, b in zip(mres, sres):
+            if "raised" in a or "raised" in b:
+                for r, where in ((a, "other-generators-alive"), (b, "alone")):
+                    if "raised" in r:
+                        raises.append(dict(where=where, item=r["item"], raised=r["raised"], msg=r["msg"], traceback=r["traceback"]))
+                break
+            item = a["item"]
+            nobs = sum(len(x) for x in a["arrays"])
+            fw, fz = multi_fields(a, "weights", hw), multi_fields(a, "redshifts", hz)
+            same = multi_same(item, a, b)
+            groups.append("MO %s %s %s %s %s" % (multi_ops_term(item), fq.nat(nobs), fq.b(fw), fq.b(fz), fq.b(same)))
+            shown.append(dict(item=item, records=nobs, has_weights=fw, has_redshifts=fz, header=a["header"], same_as_alone=same,
+                              fields=[list(x.dtype.names or ()) for x in a["arrays"]][:3],
+                              fields_alone=[list(x.dtype.names or ()) for x in b["arrays"]][:3],
+                              rows=[r for x in a["arrays"] for r in hexrows(x)][:3],
+                              rows_alone=[r for x in b["arrays"] for r in hexrows(x)][:3]))
+            for x in a["arrays"]:
+                names = x.dtype.names or ()
+                if "ra" in names and "dec" in names:
+                    ras += [float(v) for v in x["ra"]]
+                    decs += [float(v) for v in x["dec"]]
+                if (hw or hz) and fw == hw and fz == hz:
+                    for rec in x:
+                        pairs.append(fq.pair(fq.q(rec["weights"]) if "weights" in names else "0%Q",
+                                             fq.q(rec["redshifts"]) if "redshifts" in names else "0%Q"))
+        cras, cdecs = clamp_near_ties(ctx, ras, decs, lims)
+        if hw or hz:
+            wt = fq.qlist(w if w is not None else [0] * g["m"])
+            zt = fq.qlist(z if z is not None else [0] * g["m"])
+        else:
+            wt, zt = "[]", "[]"
+        replay = dict(spec=spec, object=gi, object_spec=g, groups=shown, events=mlog, events_alone=slog)
+        term = None
+        if not raises:
+            term = "c16_multi_gen %s %s %s %s %s %s %s %s %s %s %s %s %s %s" % (
+                fq.b(hw), fq.b(hz), fq.lst(groups), events_term(mlog), events_term(slog),
+                fq.q(lims[0]), fq.q(lims[1]), fq.q(lims[2]), fq.q(lims[3]), fq.qlist(cras), fq.qlist(cdecs),
+                wt, zt, fq.lst(pairs))
+        out.append((gi, term, replay, raises))
+    return out
+
+
+MULTI_FAILS = [
+    (2, "c16-size", "a call / pass / catalog of this generator holds another number of records than requested"),
+    (4, "c16-outside-window", "a point of this generator lies outside ITS requested RA/Dec window"),
+    (8, "c16-attributes-not-joint", "a (weight, redshift) pair is not one row of the samples supplied to THIS generator"),
+    (16, "c16-not-reproducible", "the records differ from those of the same generator (same arguments, same seed, same own "
+         "operations) used alone: constructing / using other generators changed them"),
+    (32, "c16-attributes-missing", "the records / the catalog do not carry exactly the attributes (weights, redshifts) this "
+         "generator was given"),
+]
+
+
+def run_multi_cases(ctx, Logged):
+    terms, metas = [], []
+    for idx, spec in enumerate(multi_specs(ctx)):
+        key = "multi:" + repr(spec)
+        modes = [g["attrs"] for g in spec["gens"]]
+        try:
+            res = multi_case(ctx, spec, idx, Logged)
+        except Exception as e:   # the harness itself, not an operation of a schedule (those are caught per item)
+            ctx.count(key=key, kind="raised")
+            ctx.fail("c16-raises:%s:several-generators" % type(e).__name__,
+                     "driving several generators raised %s: %s" % (type(e).__name__, e),
+                     dict(spec=spec, traceback=traceback.format_exc()[-1500:]), case=("multi", idx))
+            continue
+        ctx.count(key=key, nontrivial=len(set(modes)) > 1, kind="multi/%d/%s" % (len(modes), spec["created"]))
+        ctx.bump("multi_objects:%d" % len(modes))
+        ctx.bump("multi_created:" + spec["created"])
+        for it in spec["sched"]:
+            if it[0] != "new":
+                ctx.bump("multi_op:" + it[1])
+        ctx.sample(dict(multi_spec=spec), limit=2)
+        for gi, term, replay, raises in res:
+            for r in raises:
+                ctx.fail("c16-raises:%s:%s" % (r["raised"], r["where"]),
+                         "a valid request to generator %d (%s) raised %s: %s" % (gi, r["where"], r["raised"], r["msg"]),
+                         dict(replay, raised=r), case=("multi", idx, gi))
+            if term is not None:
+                terms.append(term)
+                metas.append((idx, gi, replay))
+    codes = ctx.shards("Multi_C16", HEADER, terms, shard=60)
+    for (idx, gi, replay), c in zip(metas, codes):
+        if not c:
+            continue
+        for bit, sig, what in MULTI_FAILS:
+            if c & bit:
+                ctx.fail(sig + ":other-generators-alive", "generator %d of %d alive at once: %s (code %d)"
+                         % (gi, len(replay["spec"]["gens"]), what, c), replay, case=("multi", idx, gi))
+        if c & 1:
+            ctx.disagree("Multi_C16", ("multi", idx, gi), dict(code=c, replay=replay))
+
+
 def uniformity_report(ctx, Plain, pool):
     """chi-square of area uniformity on an equal-area grid (ra x sin dec); statistic only"""
     rep = {"pooled_case_points_4x4": pool.chi2(), "large_samples_8x8": []}
@@ -858,6 +1256,7 @@ def run(ctx):
             if c & bit:
                 ctx.fail(sig + "-direct", "direct call gen(k): %s (code %d)" % (what, c), replay, case=("direct", idx))
     run_attr_cases(ctx, Plain)
+    run_multi_cases(ctx, Logged)
     try:
         uniformity_report(ctx, Plain, pool)
     except Exception as e:  # the statistic is never a failure
